@@ -110,7 +110,7 @@ func osDate(L *LState) int {
 	if L.GetTop() >= 1 {
 		cfmt = L.CheckString(1)
 		if strings.HasPrefix(cfmt, "!") {
-			cfmt = strings.TrimLeft(cfmt, "!")
+			cfmt = cfmt[1:] // one '!' selects UTC; any further one belongs to the format
 			isUTC = true
 		}
 		if L.GetTop() >= 2 {
